@@ -17,8 +17,9 @@
 //     every return (`if v := recover(); v != nil` is dead there; variant P: declared panic sites may jump into the deferred
 //     function with the recover branch taken), `for range ch` becomes `recvOrClosed`, local channels (`x := make(chan …)`)
 //     get their own names (`function.variable@call-site`), channel parameters of inlined callees are bound to the channel the
-//     argument denotes, closures bound to local variables are inlined at every call, one error field of the messages of a
-//     local channel and a few `x != nil` conditions are tracked (the rest of the block is compiled once per truth value).
+//     argument denotes, closures bound to local variables are inlined at every call, the error carried by (a field of) or
+//     being the message of declared local channels (`Tags`) and a few `x != nil` conditions are tracked (the rest of the block
+//     is compiled once per truth value; `NilMark` marks the nil side of a fork statement).
 //
 // The translator fails closed: a construct it does not understand inside a target is an error (exit 2, message on stderr),
 // which ./check reports as a broken obligation. For the multi-goroutine targets this includes: a local channel that escapes
@@ -396,6 +397,7 @@ type ctx struct {
 // dualK: the continuations of the statement that establishes `fact` (the rest of its block, compiled once per truth value)
 type dualK struct {
 	fact   string
+	v      string // the variable the fact is about
 	kT, kF int
 }
 
@@ -409,12 +411,20 @@ func (c ctx) withFact(f string, v bool) ctx {
 	return c
 }
 
-// tagSpec: messages on the local channel `Chan` are struct literals whose field `Field` (an error) is nil or not; the
-// model splits the channel in two: `name` carries the messages with Field == nil, `name#Field` those with Field != nil.
-// (Order between the two is lost — an over-approximation; what is kept is that the branch the receiver takes on
-// `x.Field != nil` is the one the sender took.)
+// tagSpec: messages on the local channel `Chan` are struct literals whose field `Field` (an error) is nil or not — or, with
+// Field == "", the message itself is the error; the model splits the channel in two: `name` carries the messages with a
+// nil error, `name#err` (`name#Field`) those with a non-nil one. (Order between the two is lost — an over-approximation;
+// what is kept is that the branch the receiver takes on `x.Field != nil` / `x != nil` is the one the sender took.)
 type tagSpec struct {
 	Chan, Field string
+}
+
+// suffix of the name of the half that carries the non-nil errors
+func (t *tagSpec) suffix() string {
+	if t.Field == "" {
+		return "#err"
+	}
+	return "#" + t.Field
 }
 
 func newCtx(ret int) ctx {
@@ -441,22 +451,49 @@ type shared struct {
 	knownChans map[string]bool   // channel names of the package census
 	declStmt   map[ast.Stmt]bool // statements whose `make(chan)` was bound by `declare`
 	usedPanic  map[string]bool
-	tag        *tagSpec
-	tagged     map[string]bool // channel names (resolved) that are split by the tag
-	forks      map[string]bool // source text of the statements `v := …` after which `v != nil` is tracked
+	tags       []tagSpec
+	tagged     map[string]*tagSpec // channel names (resolved) that are split by a tag
+	forks      map[string]bool     // source text of the statements `v := …` after which `v != nil` is tracked
+	nilMark    string              // marker on the `v == nil` side of a fork
 	usedFork   map[string]bool
 	fd         *ast.FuncDecl
 }
 
-func (sh *shared) errChan(name string) string { return name + "#" + sh.tag.Field }
+// errChan: the name of the half of the tagged channel `name` that carries the non-nil errors (`fn.var#err@call-site`)
+func (sh *shared) errChan(name string) string {
+	suf := sh.tagged[name].suffix()
+	if i := strings.Index(name, "@"); i >= 0 {
+		return name[:i] + suf + name[i:]
+	}
+	return name + suf
+}
 
 // isTagged: is the channel called `name` split by the tag
 func (b *builder) isTagged(name string) bool {
-	return b.sh != nil && b.sh.tag != nil && b.sh.tagged[name]
+	return b.sh != nil && b.sh.tagged[name] != nil
+}
+
+// nilness of an expression that is an error: 0 = nil, 1 = known non-nil, -1 = unknown
+func (b *builder) nilness(e ast.Expr, c ctx) int {
+	if id, ok := e.(*ast.Ident); ok {
+		if id.Name == "nil" {
+			return 0
+		}
+		if v, known := c.facts[id.Name+" != nil"]; known {
+			if v {
+				return 1
+			}
+			return 0
+		}
+	}
+	return -1
 }
 
 // sendTag: which half of a tagged channel a send of `v` goes to: 0 = Field is nil, 1 = Field is not nil, -1 = unknown
-func (b *builder) sendTag(v ast.Expr, c ctx) int {
+func (b *builder) sendTag(v ast.Expr, c ctx, spec *tagSpec) int {
+	if spec.Field == "" {
+		return b.nilness(v, c)
+	}
 	lit, ok := v.(*ast.CompositeLit)
 	if !ok {
 		return -1
@@ -464,7 +501,7 @@ func (b *builder) sendTag(v ast.Expr, c ctx) int {
 	var fe ast.Expr
 	for _, e := range lit.Elts {
 		if kv, ok := e.(*ast.KeyValueExpr); ok {
-			if id, ok := kv.Key.(*ast.Ident); ok && id.Name == b.sh.tag.Field {
+			if id, ok := kv.Key.(*ast.Ident); ok && id.Name == spec.Field {
 				fe = kv.Value
 			}
 		}
@@ -483,7 +520,7 @@ func (b *builder) sendTag(v ast.Expr, c ctx) int {
 						i := 0
 						for _, f := range st.Fields.List {
 							for _, nm := range f.Names {
-								if nm.Name == b.sh.tag.Field {
+								if nm.Name == spec.Field {
 									idx = i
 								}
 								i++
@@ -501,18 +538,7 @@ func (b *builder) sendTag(v ast.Expr, c ctx) int {
 	if fe == nil {
 		return -1
 	}
-	if id, ok := fe.(*ast.Ident); ok {
-		if id.Name == "nil" {
-			return 0
-		}
-		if v, known := c.facts[id.Name+" != nil"]; known {
-			if v {
-				return 1
-			}
-			return 0
-		}
-	}
-	return -1
+	return b.nilness(fe, c)
 }
 
 type spawnOut struct {
@@ -747,14 +773,20 @@ func (b *builder) errClosureCall(s ast.Stmt, c ctx) (*closure, *ast.CallExpr, st
 	if !ok {
 		return nil, nil, "", false
 	}
-	rs := cl.lit.Type.Results
-	if rs == nil || len(rs.List) != 1 || len(rs.List[0].Names) > 1 {
-		return nil, nil, "", false
-	}
-	if t, ok := rs.List[0].Type.(*ast.Ident); !ok || t.Name != "error" {
+	if !isErrClosure(cl) {
 		return nil, nil, "", false
 	}
 	return cl, call, id.Name, true
+}
+
+// isErrClosure: does the closure return exactly one value, of type error
+func isErrClosure(cl *closure) bool {
+	rs := cl.lit.Type.Results
+	if rs == nil || len(rs.List) != 1 || len(rs.List[0].Names) > 1 {
+		return false
+	}
+	t, ok := rs.List[0].Type.(*ast.Ident)
+	return ok && t.Name == "error"
 }
 
 // nilCond: is cond `X != nil` / `X == nil`; the key "X != nil" and whether cond is its negation
@@ -908,9 +940,11 @@ func (b *builder) declare(st ast.Stmt, c ctx) (*scope, int) {
 			fail(fset, id.Pos(), "local channel %s made with two capacities", name)
 		}
 		b.sh.localKinds[name] = capStr
-		if b.sh.tag != nil && b.sh.tag.Chan == id.Name {
-			b.sh.tagged[name] = true
-			b.sh.localKinds[b.sh.errChan(name)] = capStr
+		for i := range b.sh.tags {
+			if b.sh.tags[i].Chan == id.Name {
+				b.sh.tagged[name] = &b.sh.tags[i]
+				b.sh.localKinds[b.sh.errChan(name)] = capStr
+			}
 		}
 		b.sh.localIdent[id.Name] = true
 		env = env.child()
@@ -1004,7 +1038,7 @@ func (b *builder) block(list []ast.Stmt, k int, c ctx) int {
 		kU := b.block(rest, k, c2)
 		kT := b.block(rest, k, c2.withFact(fact, true))
 		kF := b.block(rest, k, c2.withFact(fact, false))
-		c1.dual = &dualK{fact: fact, kT: kT, kF: kF}
+		c1.dual = &dualK{fact: fact, v: v, kT: kT, kF: kF}
 		k = b.stmt(st, kU, c1)
 		if made[i] > 0 {
 			fail(b.p.fset, st.Pos(), "make(chan) in a statement that establishes a tracked condition: not supported")
@@ -1039,7 +1073,7 @@ func (b *builder) commOf(s ast.Stmt, next int, c ctx) ([]comm, bool) {
 	case *ast.SendStmt:
 		nm := b.chanOf(x.Chan, c)
 		if b.isTagged(nm) {
-			switch b.sendTag(x.Value, c) {
+			switch b.sendTag(x.Value, c, b.sh.tagged[nm]) {
 			case 0:
 				return []comm{{true, chanID(nm), next}}, true
 			case 1:
@@ -1083,7 +1117,10 @@ func (b *builder) taggedRecv(s ast.Stmt, c ctx) (string, string, bool) {
 	if !b.isTagged(nm) {
 		return "", "", false
 	}
-	return nm, id.Name + "." + b.sh.tag.Field + " != nil", true
+	if f := b.sh.tagged[nm].Field; f != "" {
+		return nm, id.Name + "." + f + " != nil", true
+	}
+	return nm, id.Name + " != nil", true
 }
 
 // establishes: does statement st fix the truth value of a tracked condition for the rest of its block
@@ -1098,7 +1135,7 @@ func (b *builder) establishes(st ast.Stmt, c ctx) (fact string, v string, ok boo
 				return id.Name + " != nil", id.Name, true
 			}
 		}
-		if b.sh.tag != nil {
+		if len(b.sh.tags) > 0 {
 			if _, f, ok := b.taggedRecv(st, c); ok {
 				return f, x.Lhs[0].(*ast.Ident).Name, true
 			}
@@ -1107,7 +1144,7 @@ func (b *builder) establishes(st ast.Stmt, c ctx) (fact string, v string, ok boo
 			return v + " != nil", v, true
 		}
 	case *ast.SelectStmt:
-		if b.sh.tag == nil {
+		if len(b.sh.tags) == 0 {
 			return "", "", false
 		}
 		for _, cl := range x.Body.List {
@@ -1244,7 +1281,11 @@ func (b *builder) stmt0(s ast.Stmt, k int, c ctx) int {
 			}
 			// a fork statement `v := f(…)`: both truth values of `v != nil` are possible
 			b.sh.usedFork[b.p.src(s)] = true
-			return b.effects(effectsOf(s), b.add(node{kind: "choice", nexts: []int{dual.kT, dual.kF}}), c)
+			kF := dual.kF
+			if b.sh.nilMark != "" {
+				kF = b.marker(&mark{Name: b.sh.nilMark}, kF)
+			}
+			return b.effects(effectsOf(s), b.add(node{kind: "choice", nexts: []int{dual.kT, kF}}), c)
 		}
 		if cm, ok := b.commOf(s, k, c); ok {
 			// operands of the receive itself carry no effects we track
@@ -1261,6 +1302,20 @@ func (b *builder) stmt0(s ast.Stmt, k int, c ctx) int {
 		}
 		return b.effects(effectsOf(s), k, c)
 	case *ast.SendStmt:
+		if nm := b.chanOf(x.Chan, c); b.isTagged(nm) && b.sh.tagged[nm].Field == "" {
+			if call, ok := x.Value.(*ast.CallExpr); ok {
+				if fid, ok := call.Fun.(*ast.Ident); ok {
+					if cl, ok := c.env.funcOf(fid.Name); ok && isErrClosure(cl) {
+						// `ch <- f()`: the message is the error a local closure returns; its `return nil` / `return <non-nil>`
+						// decide the half of the channel the message goes to
+						nF := b.add(node{kind: "comm", cases: []comm{{true, chanID(nm), k}}, dflt: -1})
+						nT := b.add(node{kind: "comm", cases: []comm{{true, chanID(b.sh.errChan(nm)), k}}, dflt: -1})
+						nU := b.add(node{kind: "comm", cases: []comm{{true, chanID(nm), k}, {true, chanID(b.sh.errChan(nm)), k}}, dflt: -1})
+						return b.inlineClosure(cl, call, nU, &dualK{kT: nT, kF: nF}, c)
+					}
+				}
+			}
+		}
 		cm, _ := b.commOf(s, k, c)
 		n := b.add(node{kind: "comm", cases: cm, dflt: -1})
 		return b.effects(effectsOf(x.Value), n, c)
@@ -1428,6 +1483,9 @@ func (b *builder) stmt0(s ast.Stmt, k int, c ctx) int {
 			if cc.Comm != nil && dual != nil {
 				if nm, _, ok := b.taggedRecv(cc.Comm, c); ok {
 					// `case x = <-ch:` on a tagged channel: one case per half, each with its own continuation
+					if assignsTo(cc.Body, dual.v) {
+						fail(fset, cc.Pos(), "tracked variable %s is assigned again in the select clause: not supported", dual.v)
+					}
 					cF, cT := c2.withFact(dual.fact, false), c2.withFact(dual.fact, true)
 					cF.brk, cT.brk = dual.kF, dual.kT
 					nd.cases = append(nd.cases, comm{false, chanID(nm), b.block(cc.Body, dual.kF, cF)},
@@ -2558,9 +2616,10 @@ type pipeTarget struct {
 	GoNames []string // Lean names of the processes of the go statements, in source order (call-site path)
 	Inline  []string
 	Marks   []mark
-	PanicAt []string // variant P: calls to these functions may panic
-	Tag     *tagSpec // messages of this local channel carry an error that sender and receiver branch on
-	Forks   []string // statements `v := …` after which the truth value of `v != nil` is tracked
+	PanicAt []string  // variant P: calls to these functions may panic
+	Tags    []tagSpec // messages of these local channels carry (or are) an error that sender and receiver branch on
+	Forks   []string  // statements `v := …` after which the truth value of `v != nil` is tracked
+	NilMark string    // name of a marker node put on the `v == nil` side of every fork ("" = none)
 }
 
 var pipeTargets = []pipeTarget{{
@@ -2572,8 +2631,9 @@ var pipeTargets = []pipeTarget{{
 		{"recoverSend", "resultCh <- result{0, recoverErr(v)}", true},
 	},
 	PanicAt: []string{"writeAppendEntriesReq"},
-	Tag:     &tagSpec{Chan: "resultCh", Field: "err"},
+	Tags:    []tagSpec{{Chan: "resultCh", Field: "err"}, {Chan: "drained", Field: ""}},
 	Forks:   []string{"err := r.writeAppendEntriesReq(c, req, true)"},
+	NilMark: "written",
 }}
 
 // reaches: the functions that can reach a call of the builtin `name` (by callee name, over-approximation)
@@ -2811,7 +2871,7 @@ func (p *pkg) pipeline(t pipeTarget, eff, canPanic, known map[string]bool) *pipe
 	build := func(panicMode bool) pipeVariant {
 		sh := &shared{allowGo: true, panicMode: panicMode, panicAt: map[string]bool{}, canPanic: canPanic, marks: t.Marks,
 			localKinds: map[string]string{}, localIdent: map[string]bool{}, closIdent: map[string]bool{}, knownChans: known,
-			declStmt: map[ast.Stmt]bool{}, usedPanic: map[string]bool{}, tag: t.Tag, tagged: map[string]bool{},
+			declStmt: map[ast.Stmt]bool{}, usedPanic: map[string]bool{}, tags: t.Tags, tagged: map[string]*tagSpec{},
 			forks: map[string]bool{}, usedFork: map[string]bool{}, fd: fd}
 		for _, nm := range t.PanicAt {
 			sh.panicAt[nm] = true
@@ -2819,6 +2879,7 @@ func (p *pkg) pipeline(t pipeTarget, eff, canPanic, known map[string]bool) *pipe
 		for _, f := range t.Forks {
 			sh.forks[f] = true
 		}
+		sh.nilMark = t.NilMark
 		b := &builder{p: p, eff: eff, inline: map[string]bool{}, opaque: map[string]bool{}, tname: t.Name, sh: sh, marks: map[string][]int{}}
 		for _, i := range t.Inline {
 			b.inline[i] = true
@@ -2893,9 +2954,17 @@ func (p *pkg) pipeline(t pipeTarget, eff, canPanic, known map[string]bool) *pipe
 				os.Exit(2)
 			}
 		}
-		if t.Tag != nil && len(sh.tagged) == 0 {
-			fmt.Fprintf(os.Stderr, "astfacts: tagged channel %s not declared in the episode of %s\n", t.Tag.Chan, t.Func)
-			os.Exit(2)
+		for _, tg := range t.Tags {
+			found := false
+			for _, sp := range sh.tagged {
+				if sp.Chan == tg.Chan {
+					found = true
+				}
+			}
+			if !found {
+				fmt.Fprintf(os.Stderr, "astfacts: tagged channel %s not declared in the episode of %s\n", tg.Chan, t.Func)
+				os.Exit(2)
+			}
 		}
 		// code compiled once per truth value of a tracked condition may contain go statements: keep those whose go
 		// statement can be reached; the same go statement (same inlining path) reachable twice is not supported
@@ -2982,6 +3051,16 @@ func (p *pkg) pipeline(t pipeTarget, eff, canPanic, known map[string]bool) *pipe
 				os.Exit(2)
 			}
 		}
+		if t.NilMark != "" {
+			n := 0
+			for _, pr := range v.procs {
+				n += len(pr.marks[t.NilMark])
+			}
+			if n == 0 {
+				fmt.Fprintf(os.Stderr, "astfacts: mark %s (nil side of a fork) not found in the episode of %s\n", t.NilMark, t.Func)
+				os.Exit(2)
+			}
+		}
 		for k := range b.opaque {
 			v.opaque = append(v.opaque, k)
 		}
@@ -3023,9 +3102,13 @@ func (po *pipeOut) emit(sb *strings.Builder, p *pkg, allChans []string, makes ma
 	sb.WriteString("* `for range ch` is `recvOrClosed`; closures bound to local variables are inlined at every call;\n")
 	sb.WriteString("* local channels are named `function.variable@call-site-line…`; channel parameters of inlined functions are bound to the\n")
 	sb.WriteString("  channel the argument denotes; explicit `panic(…)` statements of inlined callees are treated as no-ops;\n")
-	if t.Tag != nil {
-		fmt.Fprintf(sb, "* the messages of the local channel `%s` carry an error (field `%s`) that sender and receiver branch on: the channel is\n", t.Tag.Chan, t.Tag.Field)
-		fmt.Fprintf(sb, "  split in two halves, `name` for `%s == nil` and `name#%s` for `%s != nil` (same capacity each; the order between the\n", t.Tag.Field, t.Tag.Field, t.Tag.Field)
+	for _, tg := range t.Tags {
+		what := fmt.Sprintf("carry an error (field `%s`)", tg.Field)
+		if tg.Field == "" {
+			what = "ARE an error (`ch <- f()` with f a local closure: its `return nil` / `return <non-nil>` decide)"
+		}
+		fmt.Fprintf(sb, "* the messages of the local channel `%s` %s that sender and receiver branch on: the channel is\n", tg.Chan, what)
+		fmt.Fprintf(sb, "  split in two halves, `name` for a nil error and `name%s` for a non-nil one (same capacity each; the order between the\n", tg.suffix())
 		fmt.Fprintf(sb, "  halves is lost: an over-approximation), `close` closes both, `for range` drains the first then the second;\n")
 	}
 	sb.WriteString("* tracked conditions (`x != nil` after a fork statement / a receive from a split channel / a call of a local closure that\n")
@@ -3168,6 +3251,9 @@ func (po *pipeOut) emit(sb *strings.Builder, p *pkg, allChans []string, makes ma
 			sort.Strings(mnames)
 			for _, m := range mnames {
 				var text string
+				if m == t.NilMark {
+					text = "just after a fork statement (`" + strings.Join(t.Forks, "`, `") + "`) on the side where the variable is nil"
+				}
 				for _, mk := range t.Marks {
 					if mk.Name == m {
 						text = mk.Text
